@@ -413,11 +413,11 @@ func c08(r *ev.Reporter, _ []string) {
 			if d == 0 {
 				continue
 			}
-			st := seq.Run(seq.Config{NumOps: len(cfg.kinds), MaxDepth: d, Dedup: pass == 1, New: func() seq.System { return cfg.newSys() }, OnFail: onFail, Stop: stop})
+			st := seq.Run(seq.Config{NumOps: len(cfg.kinds), MaxDepth: d, Dedup: pass == 1, New: func() seq.System { return cfg.newSys() }, OnFail: onFail, Stop: stop, MaxStates: 150_000_000})
 			r.Count(st.States, st.Transitions, st.Sequences+st.Transitions, st.States)
 			bounds = append(bounds, fmt.Sprintf("%s merged=%v depth=%d alphabet=%d states=%d transitions=%d replayed_ops=%d", desc, pass == 1, d, len(cfg.kinds), st.States, st.Transitions, st.Replays))
 			if st.Stopped {
-				r.Cap("stopped after violations")
+				r.Cap(fmt.Sprintf("%s depth %d: stopped early (violations reported, or the cap of 150M kept states reached at %d states)", desc, d, st.States))
 			}
 		}
 	}
